@@ -208,7 +208,8 @@ class C20:
         for k in self.keys:
             outs = [(k.script, ch.pick('fundv', [100000, 5000000, 250000, 12345678, 600]))
                     for _ in range(ch.int('nfund', 1, 3))]
-            chain.fund(outs)
+            chain.fund(outs, sequence=ch.pick('fund_seq', [0xffffffff, 0xffffffff, 0xfffffffd, 0]),
+                       version=ch.pick('fund_ver', [2, 2, 1]))
         chain.mine()
         busy = self.keys[0]
         for _ in range(ch.pick('busy', [0, 0, 8, 25])):
@@ -239,7 +240,11 @@ class C20:
         outs = [(dest.script, amount)]
         if val - amount - fee > 600:
             outs.append((spk, val - amount - fee))
-        ok, reason, txid = spend(chain, self.by_script, [op], outs)
+        # sequence numbers and versions as they occur on a chain (0 and 1 included: values a falsy test mistakes for
+        # 'not given')
+        seq = ch.pick('bg_seq', [0xffffffff, 0xffffffff, 0xffffffff, 0xfffffffe, 0xfffffffd, 0, 0, 1])
+        ver = ch.pick('bg_ver', [2, 2, 1])
+        ok, reason, txid = spend(chain, self.by_script, [op], outs, sequence=seq, version=ver)
         if not ok:
             raise RuntimeError("background spend rejected: %s" % reason)
         return True
